@@ -225,11 +225,14 @@ func (b *batcher) flush() {
 // ---------- one run ----------------------------------------------------------
 
 type spec struct {
-	Kind string          `json:"kind"` // cli | srv
-	Cfg  peer.Policy     `json:"cfg"`
-	Srv  *peer.SrvScript `json:"srv,omitempty"`
-	Cli  *peer.CliScript `json:"cli,omitempty"`
-	Tag  string          `json:"tag"`
+	Kind string      `json:"kind"` // cli | srv
+	Cfg  peer.Policy `json:"cfg"`  // the policy in force for the handshake
+	// Def, if set (server role): the authenticator's own default config; Cfg is then
+	// what its ServerConfigForCommand hook returns for the requested command
+	Def *peer.Policy    `json:"def,omitempty"`
+	Srv *peer.SrvScript `json:"srv,omitempty"`
+	Cli *peer.CliScript `json:"cli,omitempty"`
+	Tag string          `json:"tag"`
 }
 
 type obs struct {
@@ -243,7 +246,9 @@ type obs struct {
 	MarkerErr bool
 	Ran       []peer.Exchange
 	PeerNote  string
-	KeyBad    bool // the endpoint's key differs from the one the peer derived independently
+	KeyBad    bool   // the endpoint's key differs from the one the peer derived independently
+	GotAd     bool   // server role: the scripted client received the server's security ad
+	AdvList   string // ... and this is its AuthMethodsList
 }
 
 var marker = []byte("C03-MARKER-plaintext-canary-0123456789abcdef")
@@ -272,7 +277,11 @@ func runSpec(sp spec, seed int64) obs {
 		go func() { defer wg.Done(); lg = peer.DialScript(ca, *sp.Cli, rng) }()
 		go func() {
 			defer wg.Done()
-			res = peer.RunServer(sa, sp.Cfg.Config())
+			if sp.Def != nil {
+				res = peer.RunServerPerCommand(sa, sp.Def.Config(), sp.Cfg.Config())
+			} else {
+				res = peer.RunServer(sa, sp.Cfg.Config())
+			}
 			if res.Err != nil {
 				sa.Close()
 			}
@@ -280,6 +289,10 @@ func runSpec(sp spec, seed int64) obs {
 	}
 	wg.Wait()
 	o := obs{Err: res.Err != nil, Hang: res.Hang, Real: res.Encrypted, Ran: lg.Ran, PeerNote: lg.Note}
+	if !isCli {
+		_, o.GotAd = lg.PeerAd["Authentication"]
+		o.AdvList = lg.PeerAd["AuthMethodsList"]
+	}
 	if res.Err != nil {
 		o.ErrText = res.Err.Error()
 	}
@@ -314,6 +327,9 @@ func inList(x string, l []string) bool {
 func judge(sp spec, o obs) (string, string) {
 	if o.Hang {
 		return "hang", "handshake did not terminate"
+	}
+	if sp.Kind == "srv" && o.GotAd && o.AdvList != strings.Join(sp.Cfg.Methods, ",") {
+		return "advertised-methods", fmt.Sprintf("the server advertised AuthMethodsList=%q, the policy in force lists %v", o.AdvList, sp.Cfg.Methods)
 	}
 	if o.Err {
 		return "", ""
@@ -594,6 +610,43 @@ func serverScripts(cfg peer.Policy, quick bool) []spec {
 	return out
 }
 
+// perCommandSpecs: servers whose ServerConfigForCommand hook returns a policy that
+// DIFFERS from the authenticator's own default config (stricter and laxer levels,
+// shorter / different method lists, different cipher lists), driven by the same
+// scripted clients.  The policy in force - the one the model and the oracle use -
+// is the per-command one.
+func perCommandSpecs(quick bool) []spec {
+	pols := []peer.Policy{
+		{Auth: "OPTIONAL", Enc: "OPTIONAL", Integ: "OPTIONAL", Methods: []string{"CLAIMTOBE", "FS"}, Ciphers: []string{"AES"}},
+		{Auth: "OPTIONAL", Enc: "REQUIRED", Integ: "OPTIONAL", Methods: []string{"CLAIMTOBE", "FS"}, Ciphers: []string{"AES"}},
+		{Auth: "OPTIONAL", Enc: "OPTIONAL", Integ: "REQUIRED", Methods: []string{"CLAIMTOBE"}, Ciphers: []string{"AES"}},
+		{Auth: "REQUIRED", Enc: "OPTIONAL", Integ: "OPTIONAL", Methods: []string{"FS"}, Ciphers: []string{"AES"}},
+		{Auth: "REQUIRED", Enc: "REQUIRED", Integ: "REQUIRED", Methods: []string{"CLAIMTOBE"}, Ciphers: []string{"AES"}},
+		{Auth: "PREFERRED", Enc: "PREFERRED", Integ: "OPTIONAL", Methods: []string{"PASSWORD", "CLAIMTOBE"}, Ciphers: nil},
+		{Auth: "NEVER", Enc: "NEVER", Integ: "NEVER", Methods: []string{"CLAIMTOBE"}, Ciphers: []string{"AES"}},
+		{Auth: "REQUIRED", Enc: "PREFERRED", Integ: "OPTIONAL", Methods: []string{"PASSWORD", "FS"}, Ciphers: []string{"BLOWFISH", "AES"}},
+	}
+	var out []spec
+	for i, def := range pols {
+		for j, pc := range pols {
+			if i == j {
+				continue
+			}
+			d := def
+			d.Command, pc.Command = 60007, 60007
+			for k, sp := range serverScripts(pc, quick) {
+				if quick && (k+i+j)%2 != 0 && !strings.Contains(sp.Tag, "/honest") {
+					continue
+				}
+				sp.Def = &d
+				sp.Tag = "percmd/" + sp.Tag
+				out = append(out, sp)
+			}
+		}
+	}
+	return out
+}
+
 // resumed handshakes are emitted as Coq cases once Model/Handshake.v covers them
 const emitResumed = true
 
@@ -660,6 +713,7 @@ func gen(c *core.Ctx) error {
 		}
 	}
 	var specs []spec
+	specs = append(specs, perCommandSpecs(c.Quick())...)
 	for i, cfg := range cfgs {
 		cs := clientScripts(cfg, c.Quick())
 		ss := serverScripts(cfg, c.Quick())
